@@ -126,10 +126,18 @@ def run(ctx):
                 r3.excepted(key, '%s: %s' % (cls, reason), loc=fn.loc(b))
                 continue
             allowed = EXPECTED.get((base, mut))
+            SAFE = ('coerced', 'default', 'instance', 'typed-literal', 'null', 'partial')
             if allowed is None:
-                r3.bad(key, 'new store site (%s in %s, value class: %s) is not in the classification table: a store that bypasses coercion changes the type tag of the slot' % (mut, base, cls), loc=fn.loc(b))
+                if cls in SAFE:
+                    # a new store site whose value is type-correct by construction holds the property
+                    r3.ok(key, loc=fn.loc(b), detail='new site, class %s' % cls)
+                else:
+                    r3.bad(key, 'new store site (%s in %s, value class: %s) is not in the classification table: a store that bypasses coercion changes the type tag of the slot' % (mut, base, cls), loc=fn.loc(b))
             elif cls not in allowed:
-                r3.bad(key, 'store site changed class: the value stored by %s in %s is now `%s` (table allows %s)' % (mut, base, cls, sorted(allowed)), loc=fn.loc(b))
+                if cls in SAFE:
+                    r3.ok(key, loc=fn.loc(b), detail='class changed to %s (type-correct by construction)' % cls)
+                else:
+                    r3.bad(key, 'store site changed class: the value stored by %s in %s is now `%s` (table allows %s)' % (mut, base, cls, sorted(allowed)), loc=fn.loc(b))
             elif cls == 'uncoerced':
                 r3.bad(key, F4_WHAT, loc=fn.loc(b))
             else:
